@@ -249,6 +249,13 @@ func realiseBase(v J, r *Repr, path, h string) (any, error) {
 				return nil, fmt.Errorf("repr array2: length %d", len(out))
 			}
 			return [2]any{out[0], out[1]}, nil
+		case "msvalues":
+			// an ordered map whose values, in order, are the elements
+			ms := yaml.MapSlice{}
+			for i, e := range out {
+				ms = append(ms, yaml.MapItem{Key: fmt.Sprintf("k%d", i), Value: e})
+			}
+			return ms, nil
 		case "maps":
 			t := make([]map[string]any, len(out))
 			for i, e := range out {
